@@ -505,7 +505,7 @@ def run(rep):
     for _ in range(n_api):
         w = rng.choice([1, 2, 3])
         nn = rng.choice([3, 5, 8, 12])
-        cfg = {'via': rng.choice(['parmap', 'parmap', 'prefetch']), 'w': w, 'b': w + rng.choice([0, 0, 1, 2]),
+        cfg = {'via': rng.choice(['parmap', 'parmap', 'prefetch', 'batchmap']), 'w': w, 'b': w + rng.choice([0, 0, 1, 2]),
                'items': [rng.randint(0, 9) for _ in range(nn)], 'ending': None, 'fm': 0, 'fr': 0, 'fcls': 'UserA',
                'stop': rng.choice([1, 2, 3, None]), 'with_items': rng.random() < 0.6}
         if cfg['via'] == 'prefetch' and w == 1:
